@@ -165,11 +165,13 @@ def _safe_gen():
         return None, "generator cannot handle the current microprogram source: %r" % (e,)
 
 
+# quick tier: must finish well inside 900 s on 12 cores -> about 70 harnesses, none above ~360 s alone
 QUICK_ARCH = _re.compile(
-    r"^(i_halt00|i_halt01_continue|i_nop_0|i_clr_0|i_ei_0|i_di_0|i_push_0|i_pop_0|i_pushf_0|i_popf_0|i_jr_0|i_jcs_[01]|i_jzs_1|i_jns_0|"
-    r"i_jcc_1|i_jzc_1|i_jnc_0|i_jrnever_0|i_call_0|i_reti_0|i_com_0|i_neg_0|i_lsr_0|i_asr_0|i_rrc_0|i_inc_0|i_tst_0|i_dec_r_0|i_dec_mmi_0|"
-    r"i_add_rs\d_0|i_adc_rs\d_0|i_sub_rs\d_0|i_and_rs3_0|i_or_rs\d_0|i_xor_rs2_0|i_mul_rs0_\d|i_mul_entry_rs\d|i_mul_iter_168_c1|"
-    r"i_mul_exit_168_c1|i_mul_exit_164_c0|i_div_rs2_\d|i_div_entry_rs\d|i_div_iter_188|i_div_exit_188|i_src_\w+_0|s_\w+_0)$")
+    r"^(i_halt00|i_halt01_continue|i_nop_0|i_clr_0|i_ei_0|i_di_0|i_push_0|i_pop_0|i_popf_0|i_jr_0|i_jcs_[01]|i_jzc_1|i_jns_0|"
+    r"i_call_0|i_reti_0|i_com_0|i_neg_0|i_lsr_0|i_rrc_0|i_inc_0|i_tst_0|i_dec_r_0|"
+    r"i_add_rs\d_0|i_adc_rs2_0|i_sub_rs0_0|i_or_rs1_0|i_mul_rs0_\d|i_mul_entry_rs\d|i_mul_iter_168_c1|"
+    r"i_mul_exit_168_c1|i_mul_exit_164_c0|i_div_rs2_0|i_div_entry_rs\d|i_div_iter_188|i_div_exit_188|i_src_\w+_0|"
+    r"s_\w+_r_0|s_ldsp_0|s_ldfr_0|s_mov_mmi_0|s_cmp_mi_0|s_bitt_m_0|s_bits_mmi_0)$")
 QUICK_TIMING = _re.compile(
     r"^(t_nop_0|t_push_0|t_pop_0|t_jcs_[01]|t_call_0|t_reti_0|t_dec_mmi_0|t_add_rs1_0|t_and_rs3_0|t_mul_entry_rs1|t_mul_iter_168_c1|"
     r"t_mul_exit_168_c1|t_div_iter_188|t_div_exit_188|t_src_mi_0|t_src_mmi_0|u_mov_r_0|u_mov_mmi_0|u_cmp_m_0|u_bitc_mmi_0|"
@@ -454,18 +456,21 @@ def C06(tier):
                 hs.append(Harness("gen::tr::" + m["fn"], key="step.counter-overflow", residual="gen::tr::c06_counter_room_residual",
                                   domain=TR + "a four-byte MOV at every counter value 0..255",
                                   confirm="#! mrasm\n .ORG 254\n LD R0, 1\n"))
-    hs += _tr_harnesses({"two-op-step"})
+    hs += _tr_harnesses({"two-op-step", "jumps"})  # jumps: the relative-offset closure is run on a symbolic target
     hs += [
         Harness("h_tr::c06_org_any_address", key="step.inst=AsmOrigin(addr<next)", residual="h_tr::c06_org_forward_residual",
                 domain=TR + ".ORG to any address relative to any counter (forward fill <= 6)", confirm="#! mrasm\n NOP\n NOP\n .ORG 1\n"),
-        Harness("h_load::load_any_size", key="load.len>240", timeout=2400, residual="h_load::load_fits_residual",
+        Harness("h_load::load_oversize_241", key="load.len>240", timeout=1200, residual="h_load::load_exact_240_residual",
+                domain="Machine::load with an image of 241 bytes (smallest image that does not fit), fill byte and stack size symbolic",
+                bounds="image length 241 / 240 (residual), concrete", confirm="#! mrasm\n .ORG 240\n NOP\n"),
+        Harness("h_load::load_any_size", key="load.len>240", timeout=2400, residual="h_load::load_fits_residual", tier="thorough",
                 domain="Machine::load with an image of symbolic length 0..=260",
                 bounds="image length <= 260, unwind 262", confirm="#! mrasm\n .ORG 240\n NOP\n"),
     ]
     return dict(
         harnesses=hs, kani_extra=[["-Z", "stubbing"]],
         bounds="translator: one step from any counter, every operand shape of the two-operand class (pairwise), DEC with all 8 source shapes; "
-               "load: image length <= 260 bytes",
+               "load: image lengths 241 and 240 (quick), every length <= 260 (thorough)",
         stubs=[NOLOG, "std::hash::RandomState::new -> fixed keys (kani::stub)"],
         assumptions=["'parser-accepted' is over-approximated by 'any AST shape the types allow'; every counterexample is then confirmed through the "
                      "public path (source text -> AsmParser::parse -> Translator::compile -> Machine::load) before it counts",
@@ -534,6 +539,9 @@ ASM_CASES = [
     ("stack_overflow", [0x10, 0x64], [], 0xD1, [None, None, None], 0, False, 8),
     ("ei_key", [0x08, 0x02, 0x64], [0x2C], 0xE0, [None, None, None], 0, True, 24),
     ("mov_mmi", [0xFD, 0x19, 0x64], [], 0xE0, [None, 0x20, 0x30], 0, False, 18),
+    # LDSP to an illegal value: the error stop falls exactly on an instruction boundary
+    ("ldsp_illegal", [0xFB, 0xF5, 0x40, 0x02, 0x64], [], 0xE0, [None, None, None], 0, False, 14),
+    ("stop_then_more", [0x01, 0x64, 0x02], [], 0xE0, [None, None, None], 0, False, 8),
 ]
 
 
@@ -567,7 +575,7 @@ def C11(tier):
             v = [[rnd.randrange(256)] for _ in range(240)] + [[rnd.randrange(256)] for _ in range(3)] + [[rnd.randrange(240), 0, 0, 0, 0, 0, 0, 0]]
             vp = _os.path.join(_driver.EVID, "replays", "C11-sweep.values.json")
             _json.dump(v, open(vp, "w"))
-            out = _driver.native_replay("gen::asm::" + fn, vp, "dev")
+            out = _driver.native_replay("gen::asm::" + fn, vp, "dev", timeout=10)
             if out.startswith("REPRODUCED"):
                 bad.append({"case": fn, "values": v, "native": out})
                 break
